@@ -496,6 +496,9 @@ func (f *folder) call(fn *ssa.Function, args []cval) cval {
 				if g == nil {
 					return f.bad("dynamic call")
 				}
+				if isSyncLockCall(g) {
+					continue // taking or releasing a lock does not change what is computed
+				}
 				var as []cval
 				for _, a := range c.Args {
 					as = append(as, get(a))
@@ -547,6 +550,11 @@ func (f *folder) call(fn *ssa.Function, args []cval) cval {
 				prev = b
 				b = b.Succs[0]
 				goto next
+			case *ssa.Defer:
+				if g := x.Common().StaticCallee(); g == nil || !isSyncLockCall(g) {
+					return f.bad("deferred call")
+				}
+			case *ssa.RunDefers:
 			default:
 				return f.bad("instruction " + in.String())
 			}
@@ -554,6 +562,15 @@ func (f *folder) call(fn *ssa.Function, args []cval) cval {
 		return f.bad("block without terminator")
 	next:
 	}
+}
+
+// isSyncLockCall: Lock/Unlock/RLock/RUnlock of sync.Mutex or sync.RWMutex.
+func isSyncLockCall(g *ssa.Function) bool {
+	switch fnName(g) {
+	case "(*sync.Mutex).Lock", "(*sync.Mutex).Unlock", "(*sync.RWMutex).Lock", "(*sync.RWMutex).Unlock", "(*sync.RWMutex).RLock", "(*sync.RWMutex).RUnlock":
+		return true
+	}
+	return false
 }
 
 func isIntegerType(t types.Type) bool {
